@@ -83,8 +83,9 @@ def make_template(d, shape, rng, crs=False, packed=False):
                 v.set_auto_maskandscale(False)
                 info.setdefault("raw", {})[nm] = numpy.array(v[:]).tolist()      # the integers on disk
                 v.set_auto_maskandscale(True)
-        tv = ds.createVariable("tmpl", "f8", tuple(info["dims"]))
-        tv[:] = numpy.zeros(shape)
+        info["template_fill"] = rng.choice([None, None, -9999.0, 0.0, 1.0])
+        tv = ds.createVariable("tmpl", "f8", tuple(info["dims"]), fill_value=info["template_fill"])
+        tv[:] = numpy.zeros(shape) + 5.0
         # a second template variable over its own, equally sized dimensions with other coordinates
         info["dims2"], info["coords2"] = [], {}
         for i, n in enumerate(shape):
@@ -147,6 +148,14 @@ def run_read(ctx, case):
         mv = rng.choice(cands) if cands else 77
     elif mvclass == "not-in-data":
         mv = 4242
+    if mv is not None and stored == "i8" and dt in ("Integer", None, "Float") and case["rseed"] % 2 == 1 and (not case["fill"] or case.get("marking", "_FillValue") == "_FillValue"):
+        # a marker beyond 2^53 next to its neighbours (integers that a double cannot tell apart)
+        mv = rng.choice([9007199254740993, -9007199254740993, 2 ** 62 + 1])
+        for i in range(n):
+            if not fillmask[i] and rng.random() < 0.5:
+                vals[i] = rng.choice([mv, mv - 1, mv + 1])
+        if dt != "Integer":
+            mv = None       # read as floats the neighbours collapse: only the integer read is judged with such a marker
     if mv is not None and not integer and stored == "f8" and case["flavour"] == "any":
         # valid cells very close to - but different from - the missing value stay valid
         for i in range(n):
@@ -280,6 +289,8 @@ def run_write(ctx, case):
         vals = [rng.randint(-400, 400) / 8.0 if dt.startswith("f") else rng.randint(-300, 300) for _ in range(n)]
         if dt == "int64" and rng.random() < 0.4:
             vals[rng.randrange(n)] = rng.choice([2 ** 31, -2 ** 31 - 1, 2 ** 40 + 7, 2 ** 53 + 1, -2 ** 62])       # beyond 32 bits
+        if info.get("template_fill") is not None and rng.random() < 0.7:
+            vals[rng.randrange(n)] = type(vals[0])(info["template_fill"])       # the template's own no-data marker, here an ordinary value
         if dt == "float64" and rng.random() < 0.3:
             vals[rng.randrange(n)] = rng.choice([float("inf"), float("-inf")])      # a value, not a missing cell
         mstyle = rng.choice(["nomask", "allfalse", "random", "random"])
